@@ -29,6 +29,10 @@ ASSUMPTIONS = [
     "unit strings come from the documented families (billion kcals / thousand tons, people fed, percent fed, per-person "
     "per-day, dry caloric tons, ratio, two free-text units) with the documented suffixes ' each month' / ' per month'",
     "only forward shifts (months >= 0), non-zero divisors and magnitudes <= 1e15 are generated",
+    "the include flags are flipped through set_nutrition_requirements (the only writer in the repo), never by "
+    "assigning attributes, so include_* / exclude_* are always consistent",
+    "identity key stale_units_operand=true: the failure disappears when the same op is repeated on operands rebuilt "
+    "with a fresh units list, i.e. it is a consequence of an earlier units_list_consistent failure (get_month)",
 ]
 COMPONENTS = {
     "real": ["Food (all arithmetic, indexing, aggregation, clipping, rounding, shifting, predicates)",
@@ -38,7 +42,7 @@ COMPONENTS = {
 }
 SHRINK_EACH_IDENTITY = True  # one minimised replay per violation identity, not per clause
 TIERS = {
-    "quick": {"histories": 192, "budget_s": 55, "timeout": 120, "batch": 64, "shrink_s": 30,
+    "quick": {"histories": 128, "budget_s": 55, "timeout": 120, "batch": 64, "shrink_s": 30,
               "seqs": 100, "len": [4, 12]},
     "thorough": {"histories": 960, "budget_s": 570, "timeout": 300, "batch": 64, "shrink_s": 60,
                  "seqs": 120, "len": [6, 30]},
